@@ -2566,6 +2566,51 @@ def concurrent_parametric_checks(ctx: Ctx, n_sets: int):
 
 
 # ---------------------------------------------------------------------------------------------
+# CachedMeasurementFactory stores whatever iterable the wrapped factory returned.  The factory type only promises an
+# Iterable: with a factory that returns a one-shot iterator the second request for the same content (a cache hit) is
+# handed the iterator the first caller already consumed, i.e. an empty grouping.  Present on the unchanged tree (all
+# in-tree factories return tuples, so only a user-supplied factory meets it): replayed every run, judged under its own
+# narrow key once that key is a listed finding, recorded as an observation until then.
+# ---------------------------------------------------------------------------------------------
+KEY_ONE_SHOT = "cached-measurement-factory-one-shot-iterable"
+
+
+def cache_one_shot_iterable_probe(ctx: Ctx):
+    from quri_parts.core.measurement import CachedMeasurementFactory, bitwise_commuting_pauli_measurement
+    from quri_parts.core.operator import Operator, pauli_label
+
+    listed = any(k["property"] == "C20" and k["key"] == KEY_ONE_SHOT for k in load_known_findings())
+    op = Operator({pauli_label("X0 Y1"): 1.0, pauli_label("Z0"): 2.0})
+    res = {}
+    for form, wrap in (("generator", lambda o: (g for g in bitwise_commuting_pauli_measurement(o))),
+                       ("iterator", lambda o: iter(bitwise_commuting_pauli_measurement(o))),
+                       ("tuple", lambda o: tuple(bitwise_commuting_pauli_measurement(o)))):
+        try:
+            fac = CachedMeasurementFactory(wrap)
+            res[form] = [len(list(fac(op))), len(list(fac(op.copy())))]
+        except Exception as e:  # noqa: BLE001
+            res[form] = "err:" + type(e).__name__
+        ctx.traces += 1
+    want = len(bitwise_commuting_pauli_measurement(op))
+    ctx.extra["cached_factory_second_request_group_counts"] = res
+    if res.get("tuple") != [want, want]:
+        # a re-iterable result must be served twice: this is not the known finding
+        ctx.witness("cache:CachedMeasurementFactory", "the second request for the same content did not get the grouping of that content",
+                    {"operator": "1*X0 Y1 + 2*Z0", "factory": "returns a tuple"}, {"group_counts": res.get("tuple"), "want": [want, want]})
+    broken = [f for f in ("generator", "iterator") if res.get(f) != [want, want]]
+    if broken and listed:
+        ctx.witness(KEY_ONE_SHOT, "CachedMeasurementFactory caches the one-shot iterable its factory returned: the second request for the same "
+                    "operator content is served the exhausted iterator (an empty grouping)",
+                    {"calls": ["fac = CachedMeasurementFactory(lambda op: (g for g in bitwise_commuting_pauli_measurement(op)))",
+                               "op = 1*X0 Y1 + 2*Z0", "list(fac(op))", "list(fac(op.copy()))"]},
+                    {"group_counts_first_second": {f: res[f] for f in broken}, "want": [want, want]})
+    elif broken:
+        ctx.extra.setdefault("observations_not_judged", []).append(
+            "GENUINE (narrow) DEFECT awaiting a known_findings line (key " + KEY_ONE_SHOT + "): CachedMeasurementFactory wrapped around a factory that "
+            f"returns a generator / iterator serves the second request for the same content an exhausted iterator: group counts {res}")
+
+
+# ---------------------------------------------------------------------------------------------
 # exhaustive small scopes (thorough tier): every history of a given length over a small alphabet
 # ---------------------------------------------------------------------------------------------
 def small_alphabet(R: "Interp", family: str):
@@ -2884,6 +2929,7 @@ def run(ctx: Ctx, replay=None) -> int:
         with ctx.timed("correspond"):
             correspond(ctx, ctx.n(360, 2500), ctx.n(36, 60))
             cache_correspond(ctx, ctx.n(150, 1500))
+            cache_one_shot_iterable_probe(ctx)
             mapping_value_histories(ctx, ctx.n(600, 6000))
             measure_histories(ctx, ctx.n(300, 3000))
             state_ctor_checks(ctx)
